@@ -244,18 +244,71 @@ theorem hab_roundtrip_lemma (c : Cfg) (b : Built) (h : c.WF)
           exact slice_zeros _ _ _ (by omega)
         have := slice_to_drop img (zeros 4) 64 (by simpa using hz)
         exact parseXmcd_zeros img _ 0 this
-  -- 4. assemble
+  -- 4. DCD stage
+  have hDcdR : parseDcdSeg img c.ivt = .ok (match c.dcd with | some d => [⟨"dcd", dcdSegOffN, d⟩] | none => []) := by
+    unfold parseDcdSeg
+    cases hdd : c.dcd with
+    | none => rw [pDcd0 hdd]; simp
+    | some d =>
+      have hv := (pDcd d hdd).1
+      have hs := (pDcd d hdd).2
+      have hne : c.ivt.dcd ≠ 0 := by omega
+      rw [if_pos hne]
+      have e := slice_to_drop img d (c.ivt.dcd - c.ivt.self) hs
+      rw [e, parseBlock_dcd d _ (hd d hdd)]
+      simp only []
+      rw [hv, Nat.add_sub_cancel_left, dcdSegOffN_eq]
+  -- 5. CSF stage
+  have hCsfR : parseCsfSeg img c.ivt =
+      .ok (if c.hasCsf then [⟨"csf", c.csfOff, csfBytes c.version b.cmds⟩] else [], expectedFlags c) := by
+    unfold parseCsfSeg
+    by_cases hh : c.hasCsf = true
+    · obtain ⟨hv, _, hs, _⟩ := pCsf hh
+      obtain ⟨hw, hfl⟩ := hc hh
+      have hne : c.ivt.csf ≠ 0 := by rw [hv, pSelf]; have := h.nonzero; omega
+      rw [if_pos hne, hs, parseCsf_csfBytes _ _ hw]
+      simp only [hh, ↓reduceIte]
+      rw [csfBytes_assignLocs, getAut_assignLocs_isSome, hfl, hv, Nat.add_sub_cancel_left]
+      unfold expectedFlags
+      simp only [hh, Bool.not_true, Bool.false_eq_true, ↓reduceIte]
+    · have hh' : c.hasCsf = false := by simpa using hh
+      rw [(pNoCsf hh').1]
+      simp [hh', expectedFlags]
+  -- 6. application
+  have hbo : c.ivt.bdt - c.ivt.self = bdtSegOffN := by rw [pBdt, bdtSegOffN_eq]; omega
+  have happb : appSeg img c.ivt c.appOff =
+      ⟨"app", c.appOff, if c.hasCsf then slice img c.appOff (c.csfOff - c.appOff) else b.app⟩ := by
+    unfold appSeg
+    by_cases hh : c.hasCsf = true
+    · obtain ⟨hv, _, _, _⟩ := pCsf hh
+      have hpos : c.ivt.csf > 0 := by rw [hv, pSelf]; have := h.nonzero; omega
+      simp only [hh, hpos, ↓reduceIte]
+      rw [hv, Nat.add_sub_cancel_left]
+      rfl
+    · have hh' : c.hasCsf = false := by simpa using hh
+      obtain ⟨hv, hl⟩ := pNoCsf hh'
+      simp only [hh', hv, Nat.lt_irrefl, gt_iff_lt, Bool.false_eq_true, ↓reduceIte]
+      rw [hl, Nat.add_sub_cancel_left]
+      congr 1
+  have hio : ((c.ivt.self : Nat) : Int) - ((c.bdt.start : Nat) : Int) = (c.ivtOff : Int) := by
+    rw [pSelf, pBs]; omega
+  -- 7. assemble
   unfold parse
   rw [hIvt]
   simp only []
   rw [hBdt]
   simp only []
+  rw [hDcdR]
+  simp only []
   rw [hXm]
   simp only []
-  have hentry : c.ivt.entry = c.entry := pEntry
-  rw [hentry, hvis]
-  have hio : ((c.ivt.self : Nat) : Int) - ((c.bdt.start : Nat) : Int) = (c.ivtOff : Int) := by
-    rw [pSelf, pBs]; omega
-  sorry
+  rw [hCsfR]
+  simp only []
+  rw [pEntry, hvis]
+  simp only []
+  rw [happb, hbo, hio, pBs]
+  unfold expectedParse expectedSegs
+  simp only [himg]
+  rfl
 
 end SpsdkVerif.Hab
